@@ -568,7 +568,7 @@ def random_shape(rng: random.Random) -> dict[str, Any]:
 # write leg
 # ---------------------------------------------------------------------------
 
-ARENA = 2 << 20
+ARENA = 4 << 20
 
 
 class Arena:
@@ -582,6 +582,10 @@ class Arena:
         self.seg = ShmSegment.create(M.HEADER_BYTES + ARENA)
         self.data = self.seg.size - M.HEADER_BYTES
         self.canary = random.Random(seed).randbytes(self.data)
+        # reusable images: fresh multi-MiB bytes objects cost a page fault per page on every scenario
+        self.before = bytearray(self.data)
+        self.after = bytearray(self.data)
+        self.masked = bytearray(self.data)
 
     def reset(self) -> None:
         self.seg.reset()
@@ -590,15 +594,16 @@ class Arena:
     def entries(self) -> list[tuple[int, int]]:
         return self.M.HeaderView(self.seg.buf).entries
 
-    def image(self) -> bytes:
-        return bytes(self.seg.buf[self.M.HEADER_BYTES :])
+    def image_into(self, target: bytearray) -> bytearray:
+        target[:] = self.seg.buf[self.M.HEADER_BYTES :]
+        return target
 
     def close(self) -> None:
         self.seg.close()
         self.seg.unlink()
 
 
-def _diff_ranges(a: bytes, b: bytes, base: int, limit: int = 4) -> list[list[int]]:
+def _diff_ranges(a: bytes | bytearray, b: bytes | bytearray, base: int, limit: int = 4) -> list[list[int]]:
     """Absolute [start, end) ranges where a and b differ (first few)."""
     out: list[list[int]] = []
     n = len(a)
@@ -625,7 +630,7 @@ def judge_write(chk: Check, arena: Arena, batch: Any, spec: dict[str, Any], scen
     M = arena.M
     cause = spec["cls"]
     before_entries = arena.entries()
-    before = arena.image()
+    before = arena.image_into(arena.before)
     wit: dict[str, Any] = {"shape": {k: v for k, v in spec.items()}, "scenario": scenario, "schema_fields": len(batch.schema), "rows": batch.num_rows, "nbytes": batch.nbytes}
     try:
         res = arena.seg.allocate_and_write(batch)
@@ -645,7 +650,7 @@ def judge_write(chk: Check, arena: Arena, batch: Any, spec: dict[str, Any], scen
             chk.violation(f"write_raised:{cause}:{type(exc).__name__}", "allocate_and_write raised", wit)
         return None
     after_entries = arena.entries()
-    after = arena.image()
+    after = arena.image_into(arena.after)
     chk.hit("write_checked")
     if res is None:
         chk.case(f"write:{cause}:{scenario}:declined")
@@ -668,7 +673,8 @@ def judge_write(chk: Check, arena: Arena, batch: Any, spec: dict[str, Any], scen
         chk.hit("write_landed_in_prepared_hole")
     lo = off - M.HEADER_BYTES
     hi = lo + length
-    masked = bytearray(after)
+    masked = arena.masked
+    masked[:] = after
     masked[lo:hi] = before[lo:hi]
     outside_same = masked == before
     overrun = written > length
@@ -857,10 +863,10 @@ def main(tier: str, seed: int) -> int:
     if quick:
         exh = [(8, 5, 8), (16, 5, 8), (32, 5, 8)]
     else:
-        exh = [(12, 6, 8), (33, 6, 8), (64, 6, 8), (24, 7, 5)]
+        exh = [(12, 6, 8), (33, 6, 8), (64, 7, 8)]
     for data, maxlen, maxsize in exh:
         prefixes = exhaustive_prefixes(maxsize, 2 if maxlen >= 7 else 1)
-        ngroups = 2 if quick else (16 if maxlen >= 7 else 6)
+        ngroups = 2 if quick else (32 if maxlen >= 7 else 6)
         for part in shard.split(prefixes, ngroups):
             jobs.append({"kind": "exh", "tier": tier, "seed": seed, "data": data, "maxlen": maxlen, "maxsize": maxsize, "prefixes": part})
         chk.exhaustive[f"alloc_free_sequences:data={data}B,sizes=1..{maxsize},len<={maxlen}"] = True
